@@ -51,6 +51,12 @@ impl ProbeBackend {
 		r.process(&mut out, channels);
 		out
 	}
+	/// One device callback into a caller-provided buffer (no allocation in here).
+	pub fn callback_into(&mut self, out: &mut [f32], channels: u16) {
+		let r = self.renderer.as_mut().expect("renderer not started");
+		r.on_start_processing();
+		r.process(out, channels);
+	}
 	pub fn on_start_processing(&mut self) {
 		self.renderer.as_mut().unwrap().on_start_processing();
 	}
